@@ -108,8 +108,8 @@ def pretty(case):
 
 def _ix(ix):
     t = ix[0]
-    if t in ("int", "npint"):
-        return str(ix[1])
+    if t in ("int", "npint", "int0d"):
+        return str(ix[1]) if t != "int0d" else f"np.array({ix[1]})"
     if t == "sl":
         f = lambda x: "" if x is None else str(x)
         return f"{f(ix[1])}:{f(ix[2])}" + ("" if ix[3] is None else f":{ix[3]}")
